@@ -162,6 +162,15 @@ func runCheck(id, tier string, ignoreKnown, verbose bool) int {
 	if jobs < 1 {
 		jobs = 1
 	}
+	for _, k := range loadKnown(filepath.Join(vd, "known_findings.txt")) {
+		if k.Kind == "known" && k.Prop == id && !ignoreKnown {
+			for _, o := range obls {
+				if o.Name == k.Obligation {
+					o.KnownFinding = true
+				}
+			}
+		}
+	}
 	g.discharge(obls, work, timeout, all, jobs)
 	if tier == "thorough" {
 		g.thoroughExtras(id, &obls, work)
